@@ -7,7 +7,7 @@ tids or pids, so a shortened list stays meaningful; an op that is not applicable
 import json
 import os
 
-from .common import HarnessError, Violation
+from .common import HarnessError, SimAbort, Violation
 from .pool import FINAL, PoolWorld
 from .prng import Rng
 from .trace import Trace
@@ -282,7 +282,7 @@ class PoolScenario:
         if kind == "submit" and op.get("then") is None and new_f is not None:
             f = new_f
             c = w.conns.get(op["conn"])
-            if c is not None and c.usable and not c.tainted and not f.reply_seen:
+            if c is not None and op["conn"] == "c0" and c.usable and not c.tainted and not f.reply_seen:
                 w.flag("C14", "healthy_submit_refused",
                        f"task {op['k']}: no task_enqueued reply on a connection that is still open")
         w.check_quiescent_point()
@@ -337,6 +337,9 @@ class PoolScenario:
                 w.raise_pending()
         except Violation as v:
             self.violation = v
+        except SimAbort as a:
+            if a.violation.prop in self.props:
+                self.violation = a.violation
         return self
 
     def _final_service_check(self, w):
